@@ -184,7 +184,7 @@ package state
 //@      && forall(t bitcoin.Hash32, forall(u bitcoin.Hash32, has(m.txs, t) && has(m.txs, u) && t != u ==> m.txs[t] != m.txs[u]))
 
 //@ func (*MemPool).AddRequest
-//@   serves C14 C12
+//@   serves C14 C12 C07
 //@   atomic mutex
 //@   requires InvTx(memPool)
 //@   ensures have: result0 <==> old(body(memPool, txid))
@@ -195,6 +195,10 @@ package state
 //@   ensures quiet: !result1 ==> forall(t bitcoin.Hash32, has(memPool.requests, t) == old(has(memPool.requests, t)) && memPool.requests[t] == old(memPool.requests[t]))
 //@   ensures others: forall(t bitcoin.Hash32, t != txid ==> has(memPool.requests, t) == old(has(memPool.requests, t)) && memPool.requests[t] == old(memPool.requests[t]))
 //@   ensures untrusted_never_vouches: !trusted ==> forall(t bitcoin.Hash32, has(memPool.txs, t) && memPool.txs[t].trusted ==> old(has(memPool.txs, t)) && old(memPool.txs[t].trusted))
+// a trusted peer's announcement vouches for the transaction whether or not its body has arrived
+// already (from anybody): the entry is trusted afterwards, so the safe report is not held back
+//@   ensures trusted_announcement_vouches: [C07] trusted ==> has(memPool.txs, txid) && memPool.txs[txid].trusted
+//@   ensures trust_is_kept: [C07] forall(t bitcoin.Hash32, old(has(memPool.txs, t)) && old(memPool.txs[t].trusted) ==> has(memPool.txs, t) && memPool.txs[t].trusted)
 //@   ensures bodies: forall(t bitcoin.Hash32, body(memPool, t) == old(body(memPool, t)))
 //@   ensures inputs_same: same(memPool.inputs) && forall(o bitcoin.Hash32, has(memPool.inputs, o) == old(has(memPool.inputs, o)) && memPool.inputs[o] == old(memPool.inputs[o]))
 //@   ensures inv: InvTx(memPool)
